@@ -59,6 +59,8 @@ TxAlphabet ==
   \* together above it (refused before execution), the same within it, and one for an id that was never registered
   \cup { TxFee(<<[t |-> "WBuy", owner |-> "A3", id |-> 1, n |-> ab[1]], [t |-> "WBuy", owner |-> "A3", id |-> 1, n |-> ab[2]]>>, [nund |-> 3 * (ab[1] + ab[2])]) : ab \in {<<2, 1>>, <<1, 1>>} }
   \cup { TxFee(<<[t |-> "WBuy", owner |-> "A3", id |-> 9, n |-> 1]>>, [nund |-> 3]) }
+  \* ... and the same two shapes for a BEACON of the holder
+  \cup { TxFee(<<[t |-> "BBuy", owner |-> "A3", id |-> 1, n |-> ab[1]], [t |-> "BBuy", owner |-> "A3", id |-> 1, n |-> ab[2]]>>, [nund |-> 5 * (ab[1] + ab[2])]) : ab \in {<<2, 1>>, <<1, 1>>} }
   \* fee allowances: A1 (and A4, who is poor) let A3 pay fees from their accounts; A3's registry transactions then name a granter
   \cup (IF ~WithFeeGrant THEN {} ELSE
        { Tx(<<[t |-> x, granter |-> g, grantee |-> "A3"]>>) : x \in {"FGrant", "FRevoke"}, g \in {"A1", "A4"} }
@@ -112,5 +114,7 @@ SweepPrefix(n) == << [a |-> "BeginBlock", dt |-> 1000],
                   Tx(<<[t |-> "Raise", pur |-> "A3", amt |-> n, denom |-> "nund"]>>),
                   Tx(<<[t |-> "Decide", signer |-> "A1", id |-> 1, d |-> "accept"]>>),
                   TxFee(<<WReg("A1")>>, [nund |-> 24]),
-                  EndEv, ComEv, [a |-> "BeginBlock", dt |-> 1000], EndEv, ComEv, [a |-> "BeginBlock", dt |-> 1000] >>
+                  EndEv, ComEv, [a |-> "BeginBlock", dt |-> 1000], EndEv, ComEv, [a |-> "BeginBlock", dt |-> 1000],
+                  \* the holder of locked eFUND registers a BEACON of its own (paid out of what was minted for it)
+                  TxFee(<<BReg("A3")>>, [nund |-> 12]) >>
 =============================================================================
